@@ -140,6 +140,9 @@ type lastRec struct {
 	m        int
 	res      string // slept killed cancelled noop exceeded other | created | merged ignored
 	real     int
+	cut      bool // the per-call maximum cut the sleep
+	obsBase  int  // base / attempts of the closure as logged by the code
+	obsAtt   int
 	errK     string
 	pre      snap // of id
 	pre2     snap // of id2 (merge: forked)
@@ -303,6 +306,16 @@ func (w *world) capBound(name string) int {
 	return m
 }
 
+func (w *world) singleName(name string) bool {
+	n := 0
+	for _, ci := range w.allCfgs() {
+		if ci.name == name {
+			n++
+		}
+	}
+	return n == 1
+}
+
 func contains(l []string, s string) bool {
 	for _, x := range l {
 		if x == s {
@@ -371,6 +384,16 @@ func (w *world) verdict(l *lastRec) string {
 			}
 			if l.real > w.capBound(l.cfg.name) {
 				return "FAIL over-cap"
+			}
+			if l.cfg.jitter == retry.EqualJitter && !l.cut && w.singleName(l.cfg.name) {
+				// EqualJitter never sleeps less than half of the exponential step (the closure's own base/attempts)
+				v := l.cfg.cap
+				if l.obsAtt < 40 && l.obsBase<<uint(l.obsAtt) < v {
+					v = l.obsBase << uint(l.obsAtt)
+				}
+				if l.real < v/2 {
+					return "FAIL below-equal-jitter-floor"
+				}
 			}
 			if !(b2.max == b.max && b2.total == b.total+l.real && b2.excl == b.excl+exd && b2.errs == b.errs+1 &&
 				showMap(b2.ms) == showMap(withAdd(b.ms, l.cfg.name, l.real)) &&
@@ -537,6 +560,8 @@ func exec(line string) (string, string) {
 			}
 			l.post = takeSnap(x)
 			l.real = l.post.total - l.pre.total
+			l.cut = cap0.got && m >= 0 && cap0.sleep > m
+			l.obsBase, l.obsAtt = cap0.base, cap0.attempts
 			sleepTok, errTok := 0, "-"
 			var out string
 			switch {
@@ -756,6 +781,19 @@ func (g *gen) do(line string) string {
 	if f[0] == "bo" {
 		g.run.Count("bo:" + strings.Fields(res)[0])
 		g.run.Count("cfg:" + f[2])
+		if l := w.last; l != nil && l.kind == "bo" && l.res == "exceeded" {
+			if l.pre.total-l.pre.excl >= l.pre.max {
+				g.run.Count("exceeded:budget")
+			} else {
+				g.run.Count("exceeded:excluded-limit")
+			}
+		}
+	}
+	if f[0] == "merge" {
+		g.run.Count("merge:" + res)
+		if l := w.last; res == "merged" && w.bs[l.id].tainted {
+			g.run.Count("merge:tainting")
+		}
 	}
 	if strings.HasPrefix(res, "FAIL") {
 		g.run.Count("FAIL")
@@ -1005,6 +1043,38 @@ func (g *gen) forkJoinCase(n int, maxLen int) {
 	g.do(fmt.Sprintf("p-budget 0 %d", g.maxCap))
 }
 
+// excludedCase drives the excluded kind (isSleepExcluded) to its own limit: with the real config (<= 10 s per sleep,
+// thorough tier) or with a custom config that carries the excluded *name* and sleeps 300 s at once.
+func (g *gen) excludedCase(n int, real bool) {
+	g.run.Comment("case " + strconv.Itoa(n))
+	g.do("reset")
+	g.idents = nil
+	ident := "tikvServerBusy"
+	g.maxCap = 10000
+	if !real {
+		g.do("defcfg x0 tikvServerBusy 300000 1000000 1")
+		ident = "x0"
+		g.maxCap = 1000000
+	}
+	g.do(fmt.Sprintf("new vars %d 10 %d", []int{100, 2000, 20000, 400000}[g.r.Intn(4)], 1+g.r.Intn(2)))
+	for i := 0; i < 200; i++ {
+		if g.r.Chance(10) {
+			g.do("bo 0 regionMiss -1 0 -")
+			g.do("p-last")
+		}
+		res := g.do(fmt.Sprintf("bo 0 %s -1 0 -", ident))
+		g.do("p-last")
+		if i%10 == 0 {
+			g.do(fmt.Sprintf("p-budget 0 %d", g.maxCap))
+		}
+		if strings.HasPrefix(res, "exceeded") {
+			break
+		}
+	}
+	g.do("st 0")
+	g.do(fmt.Sprintf("p-budget 0 %d", g.maxCap))
+}
+
 func main() {
 	util.EnableFailpoints()
 	if err := failpoint.Enable("tikvclient/fastBackoffBySkipSleep", "return"); err != nil {
@@ -1037,6 +1107,10 @@ func main() {
 		}
 		if n%4 == 1 {
 			g.forkJoinCase(n, l)
+			continue
+		}
+		if n%50 == 2 {
+			g.excludedCase(n, run.Thorough() && n%100 == 2)
 			continue
 		}
 		g.oneCase(n, l)
